@@ -4,6 +4,10 @@
 //   c20_mpi trace <mode> <ncases> <seed>          generalized requests completed by the harness; the hooks
 //                                                 2001..2010 of mpi_polling.cpp are logged and replayed by the model
 //   c20_mpi polloff <mode> <pool>                 after stop_polling nobody may poll any more
+//   c20_mpi strace <mode> <ncases> <seed>         the same for poll_singlethreaded (dedicated pool, non-inline
+//                                                 requests): hooks 2001/2002/2009/2011/2004/2005/2010
+// PROC also counts, with the hooks, what the real poll_singlethreaded does while a callback of transform_mpi
+// runs in place (registrations from inside a callback, OS threads that touch the single-threaded poller).
 // Output: IN/OUT lines (flushed per case).  A watchdog turns a hang into an OUT line + exit code 4.
 #include <pika/config.hpp>
 #include <pika/execution.hpp>
@@ -131,6 +135,9 @@ struct Rcv
 using Op = ex::connect_result_t<ex::unique_any_sender<>, Rcv>;
 
 // ------------------------------------------------------------------ PROC
+static int my_tid();
+static std::vector<int>* g_chain = nullptr;    // op -> operation to start from inside its continuation
+static void (*g_start_op)(int) = nullptr;
 static int g_n = 0;
 static std::vector<std::vector<int>> g_sbuf, g_rbuf;
 static std::vector<std::atomic<int>>* g_send_issued = nullptr;
@@ -138,6 +145,9 @@ static std::atomic<int> g_premature{0}, g_badsum{0};
 static inline int pattern(int k, size_t i) { return (int) (k * 2654435761u + i * 40503u + 17u); }
 static void proc_on_value(int op)
 {
+    // chained operation: started from INSIDE the continuation of op (in the continuation/completion-inline
+    // modes that is inside the poller's callback)
+    if (g_chain && op < (int) g_chain->size() && (*g_chain)[op] >= 0 && g_start_op) g_start_op((*g_chain)[op]);
     if (op >= g_n) return;    // a send
     int k = op;               // recv of pair k: the data must be there, the matching send must have been issued
     if (!(*g_send_issued)[k].load()) ++g_premature;
@@ -150,6 +160,36 @@ static void proc_on_value(int op)
         }
 }
 
+// what the real single-threaded poller does (hooks): hits of Testany, registrations that happen between
+// the hit (2009) and the return of its callback (2011) on that thread, OS threads seen at 2001(single)/2009
+static std::atomic<int> g_st_hits{0}, g_st_inline_add{0}, g_st_reg{0}, g_chain_in_cb{0};
+static thread_local bool tl_in_cb = false;    // this OS thread is between 2009 and 2011: a callback runs in place
+static std::atomic<std::uint64_t> g_st_threads{0};
+static void proc_hook(int site, void const*, std::uint64_t, std::uint64_t b)
+{
+    bool& in_cb = tl_in_cb;
+    switch (site)
+    {
+    case 2001:
+        if (b == 1)
+        {
+            ++g_st_reg;
+            g_st_threads |= (1ull << (my_tid() & 63));
+        }
+        if (in_cb) ++g_st_inline_add;
+        break;
+    case 2002:
+        if (in_cb) ++g_st_inline_add;
+        break;
+    case 2009:
+        ++g_st_hits;
+        in_cb = true;
+        g_st_threads |= (1ull << (my_tid() & 63));
+        break;
+    case 2011: in_cb = false; break;
+    }
+}
+
 static int do_proc(int mode, bool pool, int n, std::uint64_t seed, char* argv0)
 {
     Rng rng(seed * 977 + mode * 31 + (pool ? 7 : 0));
@@ -158,8 +198,20 @@ static int do_proc(int mode, bool pool, int n, std::uint64_t seed, char* argv0)
     g_hang_line = hl.str();
     start_watchdog(60);
     g_n = n;
-    std::vector<Ledger> led(2 * n);
+    // a third of the pairs gets a second, chained pair: its receive is started up front, its send from inside
+    // the continuation of the first receive
+    std::vector<int> cpairs;
+    for (int k = 0; k < n; ++k)
+        if (k % 3 == 1) cpairs.push_back(k);
+    int const m = (int) cpairs.size();
+    int const total = 2 * n + 2 * m;
+    std::vector<Ledger> led(total);
     g_led = &led;
+    std::vector<int> chain(total, -1);
+    g_chain = &chain;
+    static std::vector<int> cbuf_s, cbuf_r;
+    cbuf_s.assign(m, 0);
+    cbuf_r.assign(m, -1);
     std::vector<std::atomic<int>> issued(n);
     g_send_issued = &issued;
     g_on_value = &proc_on_value;
@@ -173,11 +225,30 @@ static int do_proc(int mode, bool pool, int n, std::uint64_t seed, char* argv0)
         for (size_t i = 0; i < len; ++i) g_sbuf[k][i] = pattern(k, i);
     }
     start_runtime(mode, pool, argv0);
+    pika::verif::hook.store(&proc_hook, std::memory_order_release);
     g_phase = 1;
     run_on_pika([] { mpi::start_polling(mpi::exception_mode::no_handler); });
     g_phase = 2;
     MPI_Comm comm = MPI_COMM_WORLD;
-    std::vector<std::unique_ptr<Op>> ops(2 * n);
+    static std::vector<std::unique_ptr<Op>> ops;
+    ops.clear();
+    ops.resize(total);
+    g_start_op = +[](int o) {
+        if (tl_in_cb) ++g_chain_in_cb;    // a new transform_mpi operation is started from inside the running callback
+        ex::start(*ops[o]);
+    };
+    for (int j = 0; j < m; ++j)
+    {
+        cbuf_s[j] = 7000 + j;
+        ops[2 * n + j].reset(new Op(ex::connect(
+            mpi::transform_mpi(ex::just((void*) &cbuf_r[j], 1, MPI_INT, 0, n + cpairs[j], comm), MPI_Irecv),
+            Rcv{2 * n + j})));
+        ops[2 * n + m + j].reset(new Op(ex::connect(
+            mpi::transform_mpi(ex::just((void const*) &cbuf_s[j], 1, MPI_INT, 0, n + cpairs[j], comm), MPI_Isend),
+            Rcv{2 * n + m + j})));
+        chain[cpairs[j]] = 2 * n + m + j;    // continuation of receive cpairs[j] starts the chained send
+        spawn([j, n] { ex::start(*ops[2 * n + j]); });
+    }
     for (int k = 0; k < n; ++k)
     {
         ops[k].reset(new Op(ex::connect(
@@ -198,8 +269,8 @@ static int do_proc(int mode, bool pool, int n, std::uint64_t seed, char* argv0)
         bool g = (k % 3 == 0);
         if (g) gated.push_back(k);
         bool first_send = !g && rng.below(2);
-        auto start_recv = [&ops, k] { ex::start(*ops[k]); };
-        auto start_send = [&ops, &issued, k, n] {
+        auto start_recv = [k] { ex::start(*ops[k]); };
+        auto start_send = [&issued, k, n] {
             issued[k].store(1);
             ex::start(*ops[n + k]);
         };
@@ -210,7 +281,7 @@ static int do_proc(int mode, bool pool, int n, std::uint64_t seed, char* argv0)
     std::thread gate([&] {
         std::this_thread::sleep_for(40ms);
         for (int k : gated)
-            spawn([&ops, &issued, k, n] {
+            spawn([&issued, k, n] {
                 issued[k].store(1);
                 ex::start(*ops[n + k]);
             });
@@ -224,9 +295,11 @@ static int do_proc(int mode, bool pool, int n, std::uint64_t seed, char* argv0)
     g_phase = 4;
     gate.join();
     // everything must complete eventually
-    for (int i = 0; i < 400 && g_done.load() < 2 * n; ++i) std::this_thread::sleep_for(25ms);
-    int lost = 0, sigbad = 0, errs = 0;
-    for (int i = 0; i < 2 * n; ++i)
+    for (int i = 0; i < 400 && g_done.load() < total; ++i) std::this_thread::sleep_for(25ms);
+    int lost = 0, sigbad = 0, errs = 0, cbad = 0;
+    for (int j = 0; j < m; ++j)
+        if (cbuf_r[j] != 7000 + j) ++cbad;
+    for (int i = 0; i < total; ++i)
     {
         int s = led[i].nval + led[i].nerr + led[i].nstop;
         if (s == 0) ++lost;
@@ -234,9 +307,11 @@ static int do_proc(int mode, bool pool, int n, std::uint64_t seed, char* argv0)
         errs += led[i].nerr + led[i].nstop;
     }
     std::size_t work_after = mpi::get_work_count();
-    std::printf("%s gated=%zu done_at_wait=%d issued_at_wait=%d lost=%d multi=%d errs=%d premature=%d badsum=%d work_after=%zu\n",
+    int nthr = __builtin_popcountll(g_st_threads.load());
+    std::printf("%s gated=%zu done_at_wait=%d issued_at_wait=%d lost=%d multi=%d errs=%d premature=%d badsum=%d work_after=%zu "
+                "total=%d chained=%d chain_bad=%d chain_in_cb=%d st_reg=%d st_hits=%d st_inline_add=%d st_threads=%d\n",
         g_hang_line.c_str(), gated.size(), done_at_wait, issued_at_wait, lost, sigbad, errs, g_premature.load(),
-        g_badsum.load(), work_after);
+        g_badsum.load() + 0, work_after, total, m, cbad, g_chain_in_cb.load(), g_st_reg.load(), g_st_hits.load(), g_st_inline_add.load(), nthr);
     std::fflush(stdout);
     if (lost)
     {
@@ -250,6 +325,7 @@ static int do_proc(int mode, bool pool, int n, std::uint64_t seed, char* argv0)
     g_phase = 7;
     pika::finalize();
     pika::stop();
+    pika::verif::hook.store(nullptr, std::memory_order_release);
     g_finished = true;
     std::printf("%s shutdown=ok\n", g_hang_line.c_str());
     std::fflush(stdout);
@@ -327,7 +403,7 @@ static int id_of(std::uint64_t h)
 }
 static void hookfn(int site, void const* obj, std::uint64_t a, std::uint64_t b)
 {
-    if (site < 2001 || site > 2010) return;
+    if (site < 2001 || site > 2011) return;
     static thread_local std::vector<std::size_t> scope;    // token indices of the current lock scope
     static thread_local bool effect = false;
     static thread_local void* scope_log = nullptr;
@@ -355,13 +431,17 @@ static void hookfn(int site, void const* obj, std::uint64_t a, std::uint64_t b)
     case 2006: o << "H," << t << "," << id_of(a) << "," << b; in_scope = false; break;
     case 2008: o << "L," << t; scope.clear(); effect = false; break;
     case 2009: o << "S," << t << "," << a << "," << id_of(b); in_scope = false; break;
+    case 2011: o << "R," << t << "," << a << "," << b; in_scope = false; break;
     }
     g_log->push_back(o.str());
     if (in_scope) scope.push_back(g_log->size() - 1);
     if (site == 2010)
     {
         if (!effect)
+        {
             for (auto i : scope) (*g_log)[i].clear();
+            while (!g_log->empty() && g_log->back().empty()) g_log->pop_back();    // only blanked tokens
+        }
         scope.clear();
         effect = false;
     }
@@ -503,6 +583,163 @@ static int do_trace(int mode, int ncases, std::uint64_t seed, char* argv0)
     return 0;
 }
 
+// ------------------------------------------------------------------ STRACE (poll_singlethreaded)
+// Dedicated one-thread pool + a completion mode with non-inline requests: register_polling installs
+// poll_singlethreaded and add_to_request_callback_queue pushes straight into the vectors.  Registrations run
+// as tasks ON THE POLLING POOL (as transform_mpi's continues_on(mpi_pool_scheduler) does); the harness thread
+// completes the generalized requests.  Every callback logs its entry (B) itself; 2011 (R) is its return.
+static int do_strace(int mode, int ncases, std::uint64_t seed, char* argv0)
+{
+    g_hang_line = "OUT STRACE hang";
+    start_watchdog(120);
+    start_runtime(mode, true, argv0);
+    pika::verif::hook.store(&hookfn, std::memory_order_release);
+    Rng rng(seed * 104729 + 5);
+    auto on_pool = [](auto&& f) {
+        return ex::schedule(ex::thread_pool_scheduler{&pika::resource::get_thread_pool(mpi::get_pool_name())}) |
+            ex::then(std::forward<decltype(f)>(f));
+    };
+    for (int cs = 0; cs < ncases; ++cs)
+    {
+        std::ostringstream hl;
+        hl << "OUT STRACE " << cs;
+        g_hang_line = hl.str();
+        std::vector<std::string> log;
+        {
+            std::lock_guard l(g_lm);
+            g_log = &log;
+            g_ids.clear();
+            g_calls.clear();
+        }
+        g_ncalls = 0;
+        run_on_pika([] { mpi::start_polling(mpi::exception_mode::no_handler); });
+        int nextid = 0, completed = 0;
+        std::vector<std::pair<int, MPI_Request>> outstanding;
+        std::mutex om;
+        auto reg = [&](int count) {
+            for (int i = 0; i < count; ++i)
+            {
+                MPI_Request r;
+                MPI_Grequest_start(gq_query, gq_free, gq_cancel, nullptr, &r);
+                int id;
+                std::uint64_t h = (std::uint64_t) (std::uintptr_t) r;
+                {
+                    std::lock_guard l(g_lm);
+                    id = nextid++;
+                    g_ids[h] = id;
+                }
+                mpi::detail::add_request_callback(
+                    [id, h](int err) {
+                        std::lock_guard l(g_lm);
+                        if (g_log) g_log->push_back("B," + std::to_string(id) + "," + (err == MPI_SUCCESS ? "0" : "1"));
+                        g_calls.push_back(err == MPI_SUCCESS ? id : -1000 - id);
+                        auto it = g_ids.find(h);
+                        if (it != g_ids.end() && it->second == id) g_ids.erase(it);
+                        ++g_ncalls;
+                    },
+                    r);
+                {
+                    std::lock_guard l(om);
+                    outstanding.push_back({id, r});
+                }
+            }
+        };
+        int rounds = 1 + (int) rng.below(4);
+        bool bad = false;
+        for (int rd = 0; rd <= rounds && !bad; ++rd)
+        {
+            bool last = (rd == rounds);
+            std::atomic<int> async_done{1};
+            if (!last)
+            {
+                int n1 = (rng.below(6) == 0) ? 33 + (int) rng.below(12) : 1 + (int) rng.below(6);
+                int n2 = (int) rng.below(5);
+                tt::sync_wait(on_pool([&reg, n1] { reg(n1); }));
+                if (n2 > 0)
+                {
+                    // a second batch registers while the harness thread is completing requests
+                    async_done = 0;
+                    ex::start_detached(on_pool([&reg, &async_done, n2] {
+                        reg(n2);
+                        async_done = 1;
+                    }));
+                }
+            }
+            // complete a random subset (everything in the last round), in random order
+            std::vector<std::pair<int, MPI_Request>> pick;
+            auto take = [&](bool all) {
+                std::lock_guard l(om);
+                std::vector<std::pair<int, MPI_Request>> keep;
+                for (auto& x : outstanding)
+                    if (all || rng.below(3) != 0) pick.push_back(x); else keep.push_back(x);
+                outstanding.swap(keep);
+            };
+            if (last)
+            {
+                take(true);
+            }
+            else
+                take(false);
+            for (size_t i = pick.size(); i > 1; --i) std::swap(pick[i - 1], pick[rng.below(i)]);
+            for (auto& x : pick)
+            {
+                {
+                    std::lock_guard l(g_lm);
+                    log.push_back("D," + std::to_string(x.first));
+                }
+                MPI_Grequest_complete(x.second);
+                ++completed;
+                if (rng.below(4) == 0) std::this_thread::sleep_for(std::chrono::microseconds(rng.below(300)));
+            }
+            for (int i = 0; i < 4000 && !async_done.load(); ++i) std::this_thread::sleep_for(1ms);
+            if (!async_done.load()) bad = true;
+            for (int i = 0; i < 4000 && g_ncalls.load() < completed; ++i) std::this_thread::sleep_for(1ms);
+            if (g_ncalls.load() < completed) bad = true;
+            std::this_thread::sleep_for(2ms);    // a duplicate call, if any, would come now
+            {
+                // read the counter and log the checkpoint in one step of the log order
+                std::lock_guard l(g_lm);
+                std::size_t wc = mpi::get_work_count();
+                log.push_back("K," + std::to_string(wc) + "," + std::to_string(g_ncalls.load()));
+            }
+        }
+        std::string calls;
+        int dup = 0;
+        {
+            std::lock_guard l(g_lm);
+            g_log = nullptr;
+            std::vector<int> c = g_calls;
+            std::sort(c.begin(), c.end());
+            for (size_t i = 0; i < c.size(); ++i)
+            {
+                if (i && c[i] == c[i - 1]) ++dup;
+                calls += (i ? "," : "") + std::to_string(c[i]);
+            }
+            if (calls.empty()) calls = "-";
+        }
+        std::size_t wc = mpi::get_work_count();
+        std::string ls;
+        for (auto& tk : log)
+            if (!tk.empty()) ls += " " + tk;
+        std::printf("IN STRACE %d n=%d psz=1%s\n", cs, nextid, ls.c_str());
+        std::printf("OUT STRACE %d calls=%s dup=%d inflight=%zu lost=%d\n", cs, calls.c_str(), dup, wc,
+            completed - g_ncalls.load());
+        std::fflush(stdout);
+        if (bad || wc != 0)
+        {
+            std::printf("OUT STRACE %d hang=1 phase=9\n", cs);
+            std::fflush(stdout);
+            _exit(4);
+        }
+        run_on_pika([] { mpi::stop_polling(); });
+    }
+    pika::verif::hook.store(nullptr, std::memory_order_release);
+    pika::finalize();
+    pika::stop();
+    g_finished = true;
+    return 0;
+}
+
 // ------------------------------------------------------------------ POLLOFF
 static int do_polloff(int mode, bool pool, char* argv0)
 {
@@ -571,6 +808,8 @@ int main(int argc, char** argv)
         rc = do_err(mode, std::atoi(argv[3]) != 0, std::atoi(argv[4]), argv[0]);
     else if (cmd == "trace" && argc >= 5)
         rc = do_trace(mode, std::atoi(argv[3]), std::strtoull(argv[4], nullptr, 10), argv[0]);
+    else if (cmd == "strace" && argc >= 5)
+        rc = do_strace(mode, std::atoi(argv[3]), std::strtoull(argv[4], nullptr, 10), argv[0]);
     else if (cmd == "polloff" && argc >= 4)
         rc = do_polloff(mode, std::atoi(argv[3]) != 0, argv[0]);
     MPI_Finalize();
